@@ -82,7 +82,9 @@ def documents(rng, n, depth=4, deep_every=25, f32=False):
 def unordered(v):
     """v with every map's entries sorted by key: equality up to entry order only."""
     if isinstance(v, dict):
-        return ("map", tuple(sorted((k, unordered(x)) for k, x in v.items())))
+        return ("map", tuple(sorted(((("str", k), unordered(x)) for k, x in v.items()), key=repr)))
+    if isinstance(v, gen.Map):
+        return ("map", tuple(sorted(((unordered(k), unordered(x)) for k, x in v.pairs), key=repr)))
     if isinstance(v, (list, tuple)):
         return ("seq", tuple(unordered(x) for x in v))
     if isinstance(v, float):
